@@ -36,7 +36,7 @@ chk("C07", "exploration",
     "Trusted: httparse + the strict chunked decoder in the harness; contradictory caller-supplied framing headers are outside the space.")
 chk("C08", "exploration",
     "exhaustive enumeration of the URL x proxy configuration matrix on the real client: scripted transport for plain-http routes, local TLS lab for every route involving TLS", "E2+E5",
-    "All 5184 cells scheme x host kind x port kind x path x query x fragment x userinfo x proxy kind x proxy URL form are sent; observed: the address asked for (factory / resolver-table log / accepting listener), the request as the peer reads it in clear (also inside CONNECT tunnels and behind an https proxy), the CONNECT line; compared with an independent construction of connection target, request-target form and Host.",
+    "All cells of scheme x host kind x port kind x path x query x fragment x userinfo x proxy kind x proxy URL form are sent; observed: the address asked for (factory / resolver-table log / accepting listener), the request as the peer reads it in clear (also inside CONNECT tunnels and behind an https proxy), the CONNECT line; compared with an independent construction of connection target, request-target form and Host.",
     "Trusted: harness construction of the expected target/Host strings; native-tls acceptors; certificates are not verified here (C14).")
 chk("C09", "model_checking",
     "explicit-state BFS over redirect worlds (state = next URL x redirects taken) executing the real send() on every transition; RFC 3986 reference resolver", "E3",
@@ -82,6 +82,31 @@ chk("C19", "model_checking",
     "bounded exhaustive explicit-state exploration with a pausing scripted peer", "E1",
     "The same explorer with a peer that pauses for ever after every possible prefix: the transport reports the moment the client would block; oracle: send() returns once the head is complete and no read asks for more while deliverable data has not been handed out.",
     "Trusted: definition of 'deliverable' (complete chunks incl. CRLF; all bytes for length/close) as in the property text.")
+
+# dimensions added after the seeded-change rounds (DESIGN.md section 8)
+EXTRA = {
+ "C01": " Also: chunk-extension values with non-UTF-8 obs-text, sizes padded to 20 hex digits, chunk sizes that are exact multiples of 64 KiB, write_to into a writer that takes 3 bytes per call.",
+ "C02": " Also: a 140001-byte chunk with faults beyond its first 64 KiB; json()/json_utf8() on bodies cut at every offset; on definitely broken framing a clean end is a violation also after an error has been returned.",
+ "C03": " Also: Transfer-Encoding lists split over two field lines or padded with tabs, signed and longer Content-Length lists, non-followed 3xx with a Location, a Connection: close twin of every case.",
+ "C04": " Also: Transfer-Encoding on bodiless responses, folds at the edges of a value and at the max_headers limit, Connection fields naming other fields, repeated / non-canonical Content-Length and Content-Encoding stay visible, field lines of exactly 16383/16384 bytes.",
+ "C05": " Also: endless interim 1xx responses, refusal bodies with a huge declared length, raw and zlib-wrapped deflate seeds.",
+ "C06": " Also: allow_compression(false), tabs around the coding token, codings on a second field line, unrelated fields (a media type that says gzip), every body-carrying status, the JSON helpers on damaged trailers.",
+ "C07": " Also: files positioned mid-file / at the end, text-only and empty multipart forms.",
+ "C08": " Also: the other scheme's default port, password-only userinfo (6912 cells).",
+ "C09": " Also: redirect responses with unfinished / undecodable bodies, non-http Locations with an authority against a real listener, a Location with credentials, every 2-response world run twice from one prepared request.",
+ "C10": " Also: hops to port 443 on plain http, to a URL with credentials, to a reference with a fragment.",
+ "C11": " Also: a second, different environment assignment in the same process (no process-wide cache).",
+ "C12": " Also: password-only proxy credentials; a plain-http hop redirected into a tunnel (nothing of the first hop travels inside).",
+ "C13": " Also: TLS-handshake stalls (both backends), 12 slow redirect hops, timeout(0), callers that read on after read timeouts, drop-release timing, the connect phase (literal / one / two / six addresses / proxy / redirect target), both timeouts set with the read timeout the shorter, a prepared request sent late.",
+ "C14": " Also per backend: https origin via https proxy (two TLS layers); pinned expired / other-name leaves and structurally faulty chains; one session across several exchanges with its setters called in between; rustls: a peer signing with the wrong key.",
+ "C15": " Also: a Content-Type set before the form is attached, upper-case MIME parameters, with_type / with_filename in both orders with suggestive extensions.",
+ "C16": " Also: the product method x compression setting x caller's own Accept-Encoding, and obs-text header values, prepared and sent.",
+ "C17": " Also (free running): 7..20 refusing addresses before an accepting one; two races in a row where the first address refuses, then accepts; under an expired deadline the error is an attempt's.",
+ "C18": " Also: transient transport errors at every body offset (part C); multi-byte tails across the 64 KiB marks; text_utf8 on large bodies.",
+ "C19": " Also: write_to into a counting writer sampled at the pause; send() across redirects whose bodies are unfinished; complete length-delimited bodies with Connection fields while the server keeps the socket open.",
+}
+for _k, _v in EXTRA.items():
+    C[_k]["text"] += _v
 
 PENDING = {
 }
